@@ -10,7 +10,8 @@ PROPS = ["C03", "C06", "C07"]
 
 # per property and tier: list of (cfg, mode)
 CONFIGS = {
-    "C01": {"quick": [("ControllerMC_share.cfg", "edges"), ("ControllerMC_share13.cfg", "edges"), ("ControllerMC_fault.cfg", "edges"),
+    "C01": {"quick": [("ControllerMC_share.cfg", "edges"), ("ControllerMC_share13.cfg", "edges"), ("ControllerMC_localshare.cfg", "edges"),
+                      ("ControllerMC_fault.cfg", "edges"),
                       ("ControllerMC_crashfault.cfg", "edges")],
             "thorough": [("ControllerMC_share.cfg", "edges"), ("ControllerMC_share13.cfg", "edges"), ("ControllerMC_fault.cfg", "edges"),
                          ("ControllerMC_crashfault.cfg", "edges"), ("ControllerMC_crash.cfg", "edges"),
@@ -20,7 +21,7 @@ CONFIGS = {
             "thorough": [("ControllerMC_req.cfg", "edges"), ("ControllerMC_dual.cfg", "edges"), ("ControllerMC_pinmove.cfg", "edges"),
                          ("ControllerMC_dualreq.cfg", "edges"), ("ControllerMC_pin.cfg", "edges"), ("ControllerMC_dual_sim.cfg", "sim")]},
     "C03": {"quick": [("ControllerMC_stable.cfg", "edges"), ("ControllerMC_stable_il.cfg", "edges"), ("ControllerMC_stablefault.cfg", "edges"),
-                      ("ControllerMC_crash3.cfg", "edges"), ("ControllerMC_prefer.cfg", "edges")],
+                      ("ControllerMC_crash3.cfg", "edges"), ("ControllerMC_prefer.cfg", "edges"), ("ControllerMC_localshare.cfg", "edges")],
             "thorough": [("ControllerMC_stable.cfg", "edges"), ("ControllerMC_stable_il.cfg", "edges"), ("ControllerMC_stablefault.cfg", "edges"),
                          ("ControllerMC_crash3.cfg", "edges"), ("ControllerMC_prefer.cfg", "edges"), ("ControllerMC_share.cfg", "edges"),
                          ("ControllerMC_stable_sim.cfg", "sim")]},
